@@ -25,6 +25,7 @@ CONSTANTS
   HOps = {"read", "write", "ret"}
   ReadLens = {1}
   WriteLens = {1}
+  WRN = 1
   N400C = 1
   N400T = 2
   MaxSteps = @STEPS@
